@@ -114,13 +114,20 @@ def run_case(case):
                 if a == "parse":
                     specs[oi] = make_obj(o)
                     specs[oi].parse()
-                    o["implAst"] = readback(specs[oi].ast.specs[-1], S, full=("written" in o))
-                    # the AST clause needs the node classes the codec knows; after a refactoring of the node
-                    # classes the clause is skipped (outputs are still compared), it must not raise an alarm
-                    o["implKnown"] = "unknown:" not in json.dumps(o["implAst"])
+                    # the AST clause needs the AST layout and node classes the codec knows; after a refactoring of
+                    # those the clause is skipped (outputs are still compared), it must not raise an alarm
+                    try:
+                        o["implAst"] = readback(specs[oi].ast.specs[-1], S, full=("written" in o))
+                        o["implKnown"] = "unknown:" not in json.dumps(o["implAst"])
+                    except Exception:
+                        o["implAst"] = {"op": "none"}
+                        o["implKnown"] = False
                 elif a == "pastify":
                     specs[oi].pastify()
-                    o["implPast"] = readback(specs[oi].ast.specs[-1], S, full=("written" in o))
+                    try:
+                        o["implPast"] = readback(specs[oi].ast.specs[-1], S, full=("written" in o))
+                    except Exception:
+                        o["implPast"] = {"op": "none"}
                 elif a in ("update", "evaluate") and o.get("dense"):
                     spec = specs[oi]
                     tS = o.get("tS", 1)
